@@ -1050,6 +1050,17 @@ def dict_method(interp, base, name, args, kwargs):
             return base.vals[i]
         if isinstance(args[0], K) and not base.unknown:
             return default
+        if isinstance(args[0], T) and not base.unknown and \
+                all(isinstance(k, K) for k in base.keys):
+            # fork per key like a subscript; the missing-key path yields
+            # the default
+            try:
+                return subscript(interp, base, args[0])
+            except AbsRaise as r:
+                if isinstance(r.exc, T) and r.exc.op == 'exc' and \
+                        r.exc.args[0] == 'KeyError':
+                    return default
+                raise
         return T('dictget', interp.termify(base), interp.termify(args[0]),
                  interp.termify(default))
     if name == 'items':
